@@ -1,0 +1,21 @@
+//go:build verif
+
+package sortition
+
+import "github.com/ipfs/go-log"
+
+// Verification hook (build tag verif): re-exports existing identifiers only.
+
+func VerifC42CheckOperatorStatus(
+	logger log.StandardLogger,
+	chain Chain,
+	policy JoinPolicy,
+) error {
+	return checkOperatorStatus(logger, chain, policy)
+}
+
+func VerifC42CheckRewardsEligibility(logger log.StandardLogger, chain Chain) error {
+	return checkRewardsEligibility(logger, chain)
+}
+
+var VerifC42ErrOperatorUnknown = errOperatorUnknown
